@@ -35,7 +35,8 @@ META = {
     ],
     "bounds": [
         "dependency graphs on 3 named complex types (6 edge booleans, plus a union-typed attribute and nested sequence/choice groups), rendered as an XSD text and pushed through the real pipeline",
-        "set iteration: every `set(...)` built in 12 codegen modules iterates in an order chosen by 4 symbolic picks (each 0..2, reused cyclically); id(): distinct integers ordered by the same picks",
+        "set iteration: every `set(...)` built in 12 codegen modules iterates in an order chosen by 4 symbolic picks (each 0..2, reused cyclically) unless all its elements are ints (hash(int) is seed independent); "
+        "id(): every id() call in xsdata (11 modules: particle paths, Class.ref, reference links) returns distinct integers ordered by the same picks",
         "reproducible_multi: sets of three schemas in three namespaces / files (module paths differing in two parts) with same-named / case-colliding types, so that import aliases are computed; 4 name triples x 3 structure bits x the same pick vectors",
         "transformer_history: every history of 3 calls of the real ResourceTransformer.process (programmatic entry point, real files, real on-disk cache in a private temp dir) over 3 schema files x cache on/off; "
         "every call must produce what a fresh uncached run on the same file produces",
@@ -56,7 +57,10 @@ SET_MODULES = [
     "xsdata.codegen.handlers.validate_references", "xsdata.codegen.handlers.disambiguate_choices", "xsdata.codegen.handlers.update_attributes_effective_choice",
     "xsdata.codegen.handlers.rename_duplicate_classes",
 ]
-ID_MODULES = ["xsdata.models.xsd"]  # only the particle path identifiers (object refs elsewhere must agree with every other module's id())
+# every xsdata module that calls id(): particle path identifiers, Class.ref and the `reference` links between classes (all of them see the SAME permuted numbering)
+ID_MODULES = ["xsdata.models.xsd", "xsdata.codegen.models", "xsdata.codegen.utils", "xsdata.codegen.handlers.process_attributes_types", "xsdata.codegen.handlers.flatten_class_extensions",
+              "xsdata.codegen.handlers.validate_references", "xsdata.codegen.handlers.add_attribute_substitutions", "xsdata.codegen.handlers.disambiguate_choices",
+              "xsdata.codegen.handlers.unnest_inner_classes", "xsdata.codegen.handlers.create_compound_fields", "xsdata.codegen.handlers.reset_attribute_sequence_numbers"]
 
 _PICKS = [0, 0, 0, 0]
 _CURSOR = [0]
@@ -74,6 +78,10 @@ class PermSet(set):
     """set whose iteration order is canonical-order permuted by the current pick vector."""
 
     def __iter__(self):
+        if all(type(x) in (int, bool) for x in set.__iter__(self)):
+            # hash(int) does not depend on PYTHONHASHSEED: CPython iterates a set of ints in the same order in every run, so that
+            # order is reproducible (permuting it made DisambiguateChoices' set of choice indexes look nondeterministic: a false alarm)
+            return set.__iter__(self)
         items = sorted(set.__iter__(self), key=repr)
         out = []
         while items:
@@ -151,6 +159,11 @@ def _xsd(bits):
         '<xs:schema xmlns:xs="http://www.w3.org/2001/XMLSchema" targetNamespace="urn:t" xmlns="urn:t" elementFormDefault="qualified">'
         '<xs:element name="root" type="A"/><xs:element name="other" type="C"/><xs:element name="seq" type="S"/>'
         '<xs:complexType name="S"><xs:sequence maxOccurs="3"><xs:element name="k" type="xs:string"/><xs:choice><xs:element name="p" type="xs:int"/><xs:element name="q" type="xs:string"/><xs:element name="r" type="xs:token"/><xs:element name="t" type="xs:long"/></xs:choice></xs:sequence></xs:complexType>'
+        '<xs:element name="nest"><xs:complexType><xs:sequence><xs:element name="customer"><xs:complexType><xs:sequence><xs:element name="address"><xs:complexType><xs:sequence>'
+        '<xs:element name="street" type="xs:string"/><xs:element name="geo"><xs:complexType><xs:attribute name="lat" type="xs:decimal"/></xs:complexType></xs:element>'
+        '</xs:sequence></xs:complexType></xs:element></xs:sequence></xs:complexType></xs:element>'
+        '<xs:element name="vendor"><xs:complexType><xs:sequence><xs:element name="address"><xs:complexType><xs:attribute name="zip" type="xs:string"/></xs:complexType></xs:element></xs:sequence></xs:complexType></xs:element>'
+        '</xs:sequence></xs:complexType></xs:element>'
         '<xs:simpleType name="U"><xs:union memberTypes="xs:string xs:int xs:boolean xs:decimal xs:float"/></xs:simpleType>'
         + "".join(types)
         + "</xs:schema>"
@@ -169,6 +182,7 @@ def _generate(bits, style, picks, multi=None):
     cfg = GeneratorConfig()
     cfg.output.structure_style = STYLES[style]
     cfg.output.compound_fields.enabled = bool(PART.get("compound", 0))
+    cfg.output.unnest_classes = bool(PART.get("unnest", 0))
     if multi is not None:
         from harness import multins
 
@@ -445,13 +459,16 @@ def plan(tier):
         for e0 in (0, 1):
             for e1 in (0, 1):
                 for compound in (((0, 1) if style == 0 else (0,)) if tier == "quick" else (0, 1)):
-                    jobs.append(Job("reproducible", {"style": style, "e0": e0, "e1": e1, "compound": compound}, 600 if tier == "quick" else 3000, 60, note="selector driven"))
+                    jobs.append(Job("reproducible", {"style": style, "e0": e0, "e1": e1, "compound": compound, "unnest": int(tier != "quick" and (e0 + e1 + compound) % 2)}, 600 if tier == "quick" else 3000, 60, note="selector driven"))
     for style in ([0, 1] if tier == "quick" else range(len(STYLES))):
         for compound in (0, 1):
             for names in range(len(MULTI_NAMES)):
                 if tier == "quick" and (names + style + compound) % 2:
                     continue
                 jobs.append(Job("reproducible_multi", {"style": style, "compound": compound, "names": names}, 900 if tier == "quick" else 3000, 60, note="selector driven, three namespaces / files"))
+    for style in ([0] if tier == "quick" else [0, 3]):
+        for e0 in (0, 1):
+            jobs.append(Job("reproducible", {"style": style, "e0": e0, "e1": 1 - e0, "compound": 0, "unnest": 1}, 600 if tier == "quick" else 3000, 60, note="selector driven, unnest_classes on"))
     for a in range(len(CFG_OPTS) - 1):
         jobs.append(Job("config_routes", {"a": a}, 900, 60, note="selector driven: pairs of options x file values x command-line flag values (incl. falsy) vs the API route"))
     for style in ([0] if tier == "quick" else [0, 1, 3]):
